@@ -826,7 +826,28 @@ func (in *inliner) expand(pk *packages.Package, file *ast.File, st *site, ownerD
 	if sig.RecvTypeParams().Len() > 0 {
 		// a method of a generic type: only into a method of the same type
 		// whose receiver spells the type parameters the same way
-		if ownerDecl.Recv == nil || c.decl.Recv == nil || exprString(ownerDecl.Recv.List[0].Type) != exprString(c.decl.Recv.List[0].Type) {
+		sameSpelling := ownerDecl.Recv != nil && c.decl.Recv != nil && exprString(ownerDecl.Recv.List[0].Type) == exprString(c.decl.Recv.List[0].Type)
+		// ... or into a function whose own type parameters, under the very
+		// names the callee's receiver uses, are the type arguments of the
+		// receiver at this call (a helper type putOp[K, V] used by the methods
+		// of Cache[K, V]): the copied body then means the same types
+		if !sameSpelling {
+			rt := st.recvType
+			if p, isP := rt.(*types.Pointer); isP {
+				rt = p.Elem()
+			}
+			named, _ := rt.(*types.Named)
+			if named != nil && named.TypeArgs().Len() == sig.RecvTypeParams().Len() {
+				sameSpelling = true
+				for i := 0; i < named.TypeArgs().Len(); i++ {
+					tp, isTP := named.TypeArgs().At(i).(*types.TypeParam)
+					if !isTP || tp.Obj().Name() != sig.RecvTypeParams().At(i).Obj().Name() {
+						sameSpelling = false
+					}
+				}
+			}
+		}
+		if !sameSpelling {
 			return fail("method of a generic type called from outside that type's methods")
 		}
 	}
